@@ -5,7 +5,7 @@ import ast
 from typing import Dict, List, Optional, Set, Tuple
 
 from ..core import AnalysisError, CheckResult, ClassInfo, Finding, ModuleInfo, Repo, func_params, norm, walk_no_nested
-from .c11 import INIT_METHODS, MUTATORS, STORE_EXCEPTIONS, _derived_dicts, _store_target
+from .c11 import INIT_METHODS, MUTATORS, STORE_EXCEPTIONS, _derived_dicts, _store_target, attr_aliases
 
 LEVEL = "other"
 EXHAUSTIVE = True
@@ -43,6 +43,7 @@ def run(repo: Repo, tier: str, res: CheckResult, seed: int = 0) -> None:
     two_phase(repo, res)
     lock_bodies(repo, res)
     per_request_objects(repo, res)
+    handed_over_containers(repo, res)
     res.assumptions = list(ASSUMPTIONS)
 
 
@@ -74,8 +75,9 @@ def _mutating_methods(ci: ClassInfo) -> Dict[str, List[str]]:
             continue
         if any(norm(d) in ("classmethod", "staticmethod") for d in fn.decorator_list):
             continue   # alternative constructors (`self = cls.__new__(cls); self._x = ...`) build a new object
+        al = attr_aliases(fn)
         for node in ast.walk(fn):
-            st = _store_target(node)
+            st = _store_target(node, al)
             if st is not None and st[0] == "self":
                 out.setdefault(mname, []).append(st[3])
     return out
@@ -86,8 +88,9 @@ def _all_mutations_locked(ci: ClassInfo) -> bool:
     for mname, fn in ci.methods.items():
         if mname in INIT_METHODS:
             continue
+        al = attr_aliases(fn)
         for node in ast.walk(fn):
-            st = _store_target(node)
+            st = _store_target(node, al)
             if st is not None and st[0] == "self" and not _under_lock(m, node):
                 return False
     return True
@@ -107,8 +110,9 @@ def shared_writes(repo: Repo, res: CheckResult) -> None:
             if mname in INIT_METHODS:
                 continue
             stores = []
+            al = attr_aliases(fn)
             for node in ast.walk(fn):
-                st = _store_target(node)
+                st = _store_target(node, al)
                 if st is None or st[0] not in ("self", "cls"):
                     continue
                 stores.append((node, st))
@@ -432,3 +436,93 @@ def lock_bodies(repo: Repo, res: CheckResult) -> None:
                     res.add(Finding("C12", "LOCK.nested", m.rel, m.qualname(w), norm(c.items[0].context_expr),
                                     "nested lock acquisition: a lock order must be proven", c.lineno))
     res.count("LOCK.critical-sections", n, 1)
+
+
+# ------------------------------------------------------------------------------------------ (6) shared containers in request objects
+# retort-lifetime containers that per-request objects may write, one line of reason each
+HANDED_OK = {
+    ("BuiltinMediator", "_call_cache"):
+        "insert-only; the key is (func, *args): it contains the very loaders / stubs the cached closure is built from, and stubs "
+        "compare by identity (rule TWO-PHASE), so another request can only hit an entry whose ingredients it holds itself",
+}
+
+
+def handed_over_containers(repo: Repo, res: CheckResult) -> None:
+    """Mediators, request buses and recursion resolvers live for one top-level request; what they produce while a
+    recursive request is in flight (responses, loaders) may refer to recursion stubs that are bound only when that
+    request finishes. A container of retort lifetime that such an object fills therefore hands half-made values to other
+    threads -- unless its key pins the ingredients, which is confirmed for the call cache only."""
+    handed: Dict[Tuple[str, str], Tuple[ClassInfo, str, str, int]] = {}
+    n = 0
+    for ci in repo.all_classes():
+        if _lifetime(repo, ci) is None:
+            continue
+        derived = _derived_dicts(repo, ci)
+        if not derived:
+            continue
+        m = ci.module
+        for mname, fn in ci.methods.items():
+            al = {k: v[1] for k, v in attr_aliases(fn).items() if v[1] in derived}
+            for call in ast.walk(fn):
+                if not isinstance(call, ast.Call):
+                    continue
+                given = [(i, None, a) for i, a in enumerate(call.args)] + [(None, k.arg, k.value) for k in call.keywords if k.arg]
+                for pos, kw, a in given:
+                    src = None
+                    if isinstance(a, ast.Attribute) and norm(a.value) == "self" and a.attr in derived:
+                        src = a.attr
+                    elif isinstance(a, ast.Name) and a.id in al:
+                        src = al[a.id]
+                    if src is None:
+                        continue
+                    r = repo.resolve_expr_static(m, call.func) if isinstance(call.func, (ast.Name, ast.Attribute)) else None
+                    if r is None or r.kind != "class" or r.cls is None:
+                        continue
+                    callee = r.cls
+                    # the attribute the constructor stores the parameter under (through super().__init__ chains: by name)
+                    pname = kw
+                    init = repo.find_method(callee, "__init__")
+                    if pname is None and init is not None and pos is not None:
+                        ps = func_params(init[1])[1:]
+                        pname = ps[pos] if pos < len(ps) else None
+                    if pname is None:
+                        raise AnalysisError(f"{ci.name}.{mname}: cannot bind the shared container `{src}` to a parameter of {callee.name}")
+                    attr = None
+                    for c in repo.mro(callee):
+                        f = c.methods.get("__init__")
+                        if f is None:
+                            continue
+                        for st in ast.walk(f):
+                            if isinstance(st, ast.Assign) and isinstance(st.value, ast.Name) and st.value.id == pname:
+                                for t in st.targets:
+                                    if isinstance(t, ast.Attribute) and norm(t.value) == "self":
+                                        attr = t.attr
+                    if attr is None:
+                        raise AnalysisError(f"{callee.name}.__init__ does not store the shared container parameter `{pname}`")
+                    handed[(callee.name, attr)] = (callee, src, f"{ci.name}.{mname}", call.lineno)
+    for (cname, attr), (callee, src, where, line) in handed.items():
+        n += 1
+        res.evaluated(f"handed-over:{cname}.{attr}", True)
+        res.sample({"retort container": src, "handed to": f"{cname}.{attr}", "at": where,
+                    "accepted because": HANDED_OK.get((cname, attr), "-- not confirmed --")[:80]})
+        if (cname, attr) in HANDED_OK:
+            continue
+        family = [c for c in repo.all_classes() if repo.is_subclass(c, callee.name) or c is callee or any(b is c for b in repo.mro(callee))]
+        writes = []
+        for c in family:
+            for mname, fn in c.methods.items():
+                if mname in INIT_METHODS:
+                    continue
+                al = attr_aliases(fn)
+                for node in ast.walk(fn):
+                    st = _store_target(node, al)
+                    if st is not None and st[0] == "self" and st[1] == attr:
+                        writes.append((c, mname, node, st[3]))
+        for c, mname, node, text in writes:
+            res.add(Finding("C12", "RACE.request-object-fills-shared-container", c.module.rel, f"{c.name}.{mname}", text,
+                            f"`{text}`: {c.name} lives for one top-level request but `self.{attr}` is the retort's `{src}` (handed over in "
+                            f"{where}); what it stores while a recursive request is in flight may refer to recursion stubs that are "
+                            "still unbound, and another thread that hits the entry calls through them (TypeError: 'NoneType' object is "
+                            "not callable). Only the call cache, whose key contains the ingredients of the cached closure, is "
+                            "confirmed safe", getattr(node, "lineno", 0)))
+    res.count("CONFINE.handed-over-containers", n, 1)
